@@ -27,11 +27,11 @@ DISPATCHERS = {"from_nested_meta": 1, "from_meta": 1, "from_value": 1, "from_exp
 # sites allowed to build an unspanned error although a syntax node is in scope: whole-element verdicts
 MAP_WHY = "literal item inside a map: reported through the list dispatcher with the span of the enclosing item (inside the attribute item at fault); leaf spans inside a bundle are rule C03.dataflow (F10)"
 CENSUS_ALLOW = {
-    ("<std::collections::hash::map::HashMap<alloc::string::String, V, S> as darling_core::from_meta::FromMeta>::from_list::{closure#0}", "unsupported_format"): MAP_WHY,
-    ("<std::collections::hash::map::HashMap<proc_macro2::Ident, V, S> as darling_core::from_meta::FromMeta>::from_list::{closure#0}", "unsupported_format"): MAP_WHY,
-    ("<std::collections::hash::map::HashMap<syn::path::Path, V, S> as darling_core::from_meta::FromMeta>::from_list::{closure#0}", "unsupported_format"): MAP_WHY,
-    ("<alloc::collections::btree::map::BTreeMap<alloc::string::String, V> as darling_core::from_meta::FromMeta>::from_list::{closure#0}", "unsupported_format"): MAP_WHY,
-    ("<alloc::collections::btree::map::BTreeMap<proc_macro2::Ident, V> as darling_core::from_meta::FromMeta>::from_list::{closure#0}", "unsupported_format"): MAP_WHY,
+    ("<std::collections::hash::map::HashMap<alloc::string::String, V, S> as darling_core::from_meta::FromMeta>::from_list", "unsupported_format"): MAP_WHY,
+    ("<std::collections::hash::map::HashMap<proc_macro2::Ident, V, S> as darling_core::from_meta::FromMeta>::from_list", "unsupported_format"): MAP_WHY,
+    ("<std::collections::hash::map::HashMap<syn::path::Path, V, S> as darling_core::from_meta::FromMeta>::from_list", "unsupported_format"): MAP_WHY,
+    ("<alloc::collections::btree::map::BTreeMap<alloc::string::String, V> as darling_core::from_meta::FromMeta>::from_list", "unsupported_format"): MAP_WHY,
+    ("<alloc::collections::btree::map::BTreeMap<proc_macro2::Ident, V> as darling_core::from_meta::FromMeta>::from_list", "unsupported_format"): MAP_WHY,
     ("darling_core::ast::data::Data::<V, F>::try_from", "custom"): "union: whole-element verdict, deliberately reported at the macro call site",
     ("darling_core::ast::data::Data::<V, F>::try_empty_from", "custom"): "union: whole-element verdict",
 }
@@ -353,8 +353,8 @@ def classify_site(ctx, b, blk, t, name):
             # the closure's result must go through the owner's dispatcher exit (map_err with_span) – checked by C03.P
             return "hook", "closure of %s whose Err exits are spanned by rule C03.P" % b.owner_fn.rsplit("::", 1)[-1]
         return "hook", "hook without a node (%s); the dispatcher attaches the span" % b.key.rsplit("::", 1)[-1]
-    if (b.key, name) in CENSUS_ALLOW:
-        return "allowed", CENSUS_ALLOW[(b.key, name)]
+    if (common.owner_key(b.key), name) in CENSUS_ALLOW:
+        return "allowed", CENSUS_ALLOW[(common.owner_key(b.key), name)]
     return "violation", "a syntax node (%s) is in scope and the error is built without with_span" % node
 
 
